@@ -26,7 +26,7 @@ _PC = "XonshVerif.Proofs.PegCost"
 _TS = "XonshVerif.Model.TokenSource"
 THEOREMS = {
     "C01": _INERT + [("XV.Helpers.kw_defaults_length", _HELP), ("XV.Helpers.defaults_le_positional", _HELP), ("XV.Helpers.args_order", _HELP),
-                     ("XV.Src.kept_no_trivia", _TS), ("XV.Src.kept_sublist", _TS)],
+                     ("XV.Src.kept_no_trivia", _TS), ("XV.Src.kept_sublist", _TS), ("XV.Span.span_end_is_last_significant_token", "XonshVerif.Proofs.Span")],
     "C07": [("XV.WithMacro.with_macro_lines_verbatim", "XonshVerif.Proofs.WithMacro"), ("XV.WithMacro.step_facts", "XonshVerif.Proofs.WithMacro"), ("XV.Macro.loop_partition", _PM), ("XV.Macro.param_is_concat", _PM), ("XV.Macro.concat_is_source_slice", _PM)],
     "C08": [("XV.Tz.tokens_are_source_slices", "XonshVerif.Properties.C08"), ("XV.Tz.splitLines_nonLastEndNL", "XonshVerif.Properties.C08"), ("XV.Tz.tokenizeLines_cov", "XonshVerif.Proofs.TokCover"),
             ("XV.Tz.scanLine_cov", "XonshVerif.Proofs.TokCover"), ("XV.Tz.nextStatement_cov", "XonshVerif.Proofs.TokCover"),
@@ -41,7 +41,7 @@ THEOREMS = {
     "C10": [("XV.Tz.fstring_tokens_balanced", "XonshVerif.Properties.C10"), ("XV.Tz.fstring_prefix_depth_defined", "XonshVerif.Properties.C10"),
             ("XV.Tz.tokenizeLines_fbal", "XonshVerif.Proofs.FstringBalance"), ("XV.Tz.handleFstringProgs_fstep", "XonshVerif.Proofs.FstringBalance"),
             ("XV.Tz.tokens_are_source_slices", "XonshVerif.Properties.C08"), ("XV.Tz.tokenize_total", "XonshVerif.Properties.C03")],
-    "C04": [("XV.Act.nullable_sound", "XonshVerif.Properties.C04"), ("XV.Act.required_fields_never_none", "XonshVerif.Properties.C04")],
+    "C04": [("XV.Span.span_end_is_last_significant_token", "XonshVerif.Proofs.Span"), ("XV.Act.nullable_sound", "XonshVerif.Properties.C04"), ("XV.Act.required_fields_never_none", "XonshVerif.Properties.C04")],
     "C12": [("XV.Lines.getLines_file_eq_string", "XonshVerif.Properties.C12"), ("XV.Lines.scanFile_spec", "XonshVerif.Properties.C12")],
     "C14": [("XV.Tz.tokens_after_neutral_prefix", "XonshVerif.Properties.C14"), ("XV.Tz.tokenize_append", "XonshVerif.Properties.C14"), ("XV.Tz.neutral_prefix_lines", "XonshVerif.Properties.C14"),
             ("XV.Tz.tokenizeLines_sh", "XonshVerif.Proofs.TokCompose"), ("XV.Tz.tokenizeLines_append", "XonshVerif.Proofs.TokCompose")],
@@ -379,6 +379,13 @@ def corr_helpers(pid, kinds):
                 g = pyprog.gen_program(r, maxdepth=3, nstmts=2)
                 if g and ("def " in g[0] or "lambda" in g[0]):
                     srcs.append(g[0])
+        if "span" in kinds:
+            srcs += list(corpus.PY_STMTS) + list(xonshgen.XONSH_STMTS)
+            for _ in range(60 * n):
+                g = pyprog.gen_program(r, maxdepth=3, nstmts=3)
+                if g:
+                    srcs.append(g[0])
+            srcs += ["if a:\n    pass\n\n\n", "def f():\n    return\n", "class A:\n    def f(self):\n        x = (1,\n 2)\n\n", "x = 1", "", "\n", "pass\n# c\n"]
         if "builderr" in kinds:
             srcs += list(c11.INVALID_SNIPPETS) + ["ok = 1\n\n" + s for s in c11.INVALID_SNIPPETS]
         bad = corr.run_helper_correspondence(rep, corr.helper_cases(srcs), kinds)
@@ -428,7 +435,8 @@ CORR = {
     "C07": [corr_helpers("C07", ("macro", "withmacro"))],
     "C11": [corr_helpers("C11", ("builderr",))],
     "C06": [corr_c06],
-    "C01": [corr_peg("C01", xonsh=False), corr_helpers("C01", ("makeargs",))],
+    "C01": [corr_peg("C01", xonsh=False), corr_helpers("C01", ("makeargs", "span"))],
+    "C04": [corr_helpers("C04", ("span",))],
     "C02": [corr_peg("C02")],
     "C05": [corr_peg("C05")],
     "C03": [corr_peg("C03"), corr_tok("C03"), corr_pipeline("C03")],
